@@ -144,16 +144,20 @@ impl ContinuousOutput {
         // This matches SciPy's behavior
         let first = self.segs.first().unwrap();
         let last = self.segs.last().unwrap();
-        
+
+        // Segments are stored in integration order: in a backward run the first
+        // segment is the one with the highest times.
         let first_left = first.xold.min(first.xold + first.h);
+        let first_right = first.xold.max(first.xold + first.h);
+        let last_left = last.xold.min(last.xold + last.h);
         let last_right = last.xold.max(last.xold + last.h);
-        
-        if t < first_left {
-            // Extrapolate backwards using first segment
-            Some(first)
-        } else if t > last_right {
-            // Extrapolate forwards using last segment
-            Some(last)
+
+        if t < first_left && t < last_left {
+            // Extrapolate below the covered span using the lowest segment
+            if first_left <= last_left { Some(first) } else { Some(last) }
+        } else if t > first_right && t > last_right {
+            // Extrapolate above the covered span using the highest segment
+            if last_right >= first_right { Some(last) } else { Some(first) }
         } else {
             // This shouldn't happen, but return None to be safe
             None
